@@ -30,7 +30,7 @@ def _declare(ctx):
     from symx import phase
 
     d = PHASE_DIV[0]
-    phase.declare(ctx, [(ctx.sym("qx") / d, "t1"), (ctx.sym("qy") / d, "t2"), (ctx.sym("qz") / d, "t3")], spare=[n for n in ("t4",) if n in ctx.names])
+    phase.declare(ctx, [(ctx.sym("qx") / d, "t1"), (ctx.sym("qy") / d, "t2"), (ctx.sym("qz") / d, "t3")], spare=[n for n in ("t4", "t5") if n in ctx.names])
 
 
 def _run_refining(name, names, body, **kw):
@@ -255,8 +255,8 @@ def obligations(tier, seed):
     for centre, batch in ([((0, 0, 0), "single"), ((2, -1, 3), "with_zero")] if tier == "quick" else [((0, 0, 0), "single"), ((0, 0, 0), "with_zero"), ((2, -1, 3), "single"), ((2, -1, 3), "with_zero"), ((-4, 5, 1), "single")]):
         nm = "C12/Sphere.c%s.%s" % ("_".join(map(str, centre)), batch)
         obs.append((nm, (lambda nm=nm, centre=centre, batch=batch: _run_refining(
-            nm, names + ["R", "t4"], sphere_body(centre, batch), positive=["R"], pre=lambda V: [V["qx"] * V["qx"] + V["qy"] * V["qy"] + V["qz"] * V["qz"] >= F(1, 100)],
-            first_sample=dict(first, R=F(3, 2), t4=F(1, 5)), functions=fns, max_paths=(4 if tier == "quick" else 16), budget_s=(200 if tier == "quick" else 1200),
+            nm, names + ["R", "t4", "t5"], sphere_body(centre, batch), positive=["R"], pre=lambda V: [V["qx"] * V["qx"] + V["qy"] * V["qy"] + V["qz"] * V["qz"] >= F(1, 100)],
+            first_sample=dict(first, R=F(3, 2), t4=F(1, 5), t5=F(2, 7)), functions=fns, max_paths=(4 if tier == "quick" else 16), budget_s=(200 if tier == "quick" else 1200),
             stubs=["sin/cos/exp -> rational functions of tan(phase/2); |q| R is a phase discovered on the path"],
             bounds="sphere with free radius at lattice centre %s, wave vector free with |q|^2 >= 1e-2, density 2; batch form %s" % (centre, batch)))))
     return obs
